@@ -523,6 +523,13 @@ class Builder:
                 return v[1][i]
             except IndexError:
                 pass
+        if (isinstance(v, tuple) and v[0] == "call" and v[1] in (("global", "jax.numpy.array"), ("global", "jax.numpy.asarray")) and len(v[2]) == 1
+                and isinstance(v[2][0], tuple) and v[2][0][0] in ("list", "tuple") and isinstance(i, int)
+                and not any(isinstance(e, tuple) and e and e[0] == "star" for e in v[2][0][1])):
+            try:
+                return v[2][0][1][i]  # unpacking jnp.array([a, b, ...]) yields its elements
+            except IndexError:
+                pass
         if isinstance(v, tuple) and v[0] == "record" and isinstance(i, int):
             ci = self.prog.classes.get(v[1])
             if ci is not None and any(b.split(".")[-1] == "NamedTuple" for b in self.prog.external_bases(ci)):
